@@ -379,6 +379,7 @@ pub fn configurations(_tier_quick: bool) -> Vec<(Kind, Vec<(String, String)>)> {
 pub fn run(ctx: &mut Ctx) {
     app::pin_clock();
     let quick = ctx.quick();
+    compositions(ctx);
     let headers = header_alphabet(quick);
     let configs = configurations(quick);
     let mut n_cfg = 0u64;
@@ -421,6 +422,7 @@ pub fn run(ctx: &mut Ctx) {
 
 pub fn replay(ctx: &mut Ctx, case: &Value) {
     app::pin_clock();
+    if case.get("composition").is_some() { return replay_composition(ctx, case) }
     let kind = if case["config"]["kind"] == "single" { Kind::Single } else { Kind::Array };
     let pairs: Vec<(String, String)> = case["config"]["pairs"].as_array().expect("config.pairs").iter().map(|p| {
         let s = |i: usize| String::from_utf8(unesc(p[i].as_str().expect("pair member"))).expect("pair is UTF-8");
@@ -434,4 +436,138 @@ pub fn replay(ctx: &mut Ctx, case: &Value) {
     let cfg = Config { kind, pairs, router };
     let auth = case["authorization"].as_str().map(unesc);
     check_case(ctx, &cfg, case["method"].as_str().unwrap_or("GET"), auth.as_deref(), case["family"].as_str().unwrap_or("replay"));
+}
+
+/* ------------------------------------------------------------ compositions (fourth round) ------------------ */
+// Several differently configured BasicAuth fangs in one application (sibling mounts, a parent and a child, the single and
+// the array entry point side by side) and short histories over them.  Each gate is judged on its own: the handler behind
+// a path runs iff every gate in front of it admits the presented credential, whatever was presented - and admitted or
+// refused - before, on this path or on another one.  (A cache shared by instances, or state left by an earlier request,
+// is what this part is after; single requests against one fang are the business of the part above.)
+
+struct Comp { kind: &'static str, router: VerifRouter, paths: Vec<(&'static str, Vec<Vec<(&'static str, &'static str)>>)>,
+    /// the request admitted last (rightly) on this composition in this process: the context of every witness
+    last_legit: std::cell::RefCell<Option<(usize, usize)>> }
+
+const COMP_KINDS: [&str; 4] = ["siblings", "siblings-array", "parent-and-child", "siblings-shared-user"];
+
+fn build_comp(kind: &'static str) -> Result<Comp, String> {
+    let ba = |u: &str, p: &str| BasicAuth { username: u.to_string(), password: p.to_string() };
+    guarded(|| match kind {
+        "siblings" => Comp { kind, router: VerifRouter::from(Ohkami::new((
+                "/admin".By(Ohkami::new((ba("root", "r00t"), "/".GET(protected)))),
+                "/staff".By(Ohkami::new((ba("alice", "a1"), "/".GET(protected)))),
+            ))), paths: vec![("/admin", vec![vec![("root", "r00t")]]), ("/staff", vec![vec![("alice", "a1")]])], last_legit: Default::default() },
+        "siblings-array" => Comp { kind, router: VerifRouter::from(Ohkami::new((
+                "/admin".By(Ohkami::new((ba("root", "r00t"), "/".GET(protected)))),
+                "/staff".By(Ohkami::new(([ba("alice", "a1"), ba("bob", "b2")], "/".GET(protected)))),
+            ))), paths: vec![("/admin", vec![vec![("root", "r00t")]]), ("/staff", vec![vec![("alice", "a1"), ("bob", "b2")]])], last_legit: Default::default() },
+        "parent-and-child" => Comp { kind, router: VerifRouter::from(Ohkami::new((
+                [ba("alice", "a1"), ba("root", "r00t")], "/".GET(protected),
+                "/admin".By(Ohkami::new((ba("root", "r00t"), "/".GET(protected)))),
+            ))), paths: vec![("/", vec![vec![("alice", "a1"), ("root", "r00t")]]), ("/admin", vec![vec![("alice", "a1"), ("root", "r00t")], vec![("root", "r00t")]])], last_legit: Default::default() },
+        "siblings-shared-user" => Comp { kind, router: VerifRouter::from(Ohkami::new((
+                "/x".By(Ohkami::new((ba("u", "p"), "/".GET(protected)))),
+                "/y".By(Ohkami::new((ba("u", "pp"), "/".GET(protected)))),
+            ))), paths: vec![("/x", vec![vec![("u", "p")]]), ("/y", vec![vec![("u", "pp")]])], last_legit: Default::default() },
+        _ => unreachable!(),
+    })
+}
+
+fn comp_menu(c: &Comp) -> Vec<(String, Option<Vec<u8>>)> {
+    let mut creds: Vec<(&str, &str)> = vec![];
+    for (_, gates) in &c.paths { for g in gates { for pr in g { if !creds.contains(pr) { creds.push(*pr) } } } }
+    let mut out: Vec<(String, Option<Vec<u8>>)> = vec![("absent".into(), None)];
+    for (u, p) in &creds { out.push((format!("exact:{u}"), Some(basic(&cred(u, p))))) }
+    // mixed pairs across instances, a wrong password, an unpadded spelling of an exact credential, garbage
+    for (u, _) in &creds { for (_, p) in &creds { if !creds.contains(&(*u, *p)) { out.push((format!("mixed:{u}+{p}"), Some(basic(&cred(u, p))))) } } }
+    out.push(("wrong-password".into(), Some(basic(&cred(creds[0].0, "nope")))));
+    let exact0 = basic(&cred(creds[0].0, creds[0].1));
+    let unpadded: Vec<u8> = exact0.iter().copied().filter(|b| *b != b'=').collect();
+    if unpadded != exact0 { out.push(("exact-unpadded".into(), Some(unpadded))) }
+    out.push(("garbage".into(), Some(b"Basic !!!".to_vec())));
+    out
+}
+
+fn run_comp_history(ctx: &mut Ctx, c: &Comp, menu: &[(String, Option<Vec<u8>>)], hist: &[(usize, usize)]) {
+    let mut readable: Vec<Value> = vec![];
+    let context: Option<(usize, usize)> = *c.last_legit.borrow();
+    for (k, &(pi, mi)) in hist.iter().enumerate() {
+        let (path, gates) = &c.paths[pi];
+        let auth = menu[mi].1.as_deref();
+        let verdicts: Vec<Verdict> = gates.iter().map(|g| expectation(&g.iter().map(|(u, p)| (u.to_string(), p.to_string())).collect::<Vec<_>>(), auth)).collect();
+        let expect = if verdicts.iter().any(|v| v.expect == Expect::Refuse) { Expect::Refuse } else if verdicts.iter().all(|v| v.expect == Expect::Run) { Expect::Run } else { Expect::Either };
+        let mut raw = format!("GET {path} HTTP/1.1\r\nHost: h\r\n").into_bytes();
+        if let Some(a) = auth { raw.extend_from_slice(b"Authorization: "); raw.extend_from_slice(a); raw.extend_from_slice(b"\r\n") }
+        raw.extend_from_slice(b"\r\n");
+        let before = RUNS.load(Ordering::SeqCst);
+        let out = app::oneshot(&c.router, &raw);
+        let ran = RUNS.load(Ordering::SeqCst) != before;
+        ctx.transitions += 1;
+        readable.push(json!({"path": path, "authorization": menu[mi].0}));
+        let last = k + 1 == hist.len();
+        let feature = format!("{}{}", if hist.len() > 1 { format!("after:{}>", menu[hist[0].1].0.split(':').next().unwrap_or("")) } else { String::new() }, menu[mi].0.split(':').next().unwrap_or(""));
+        let class = |symptom: &str| format!("C13/composition:{}/{}/{}", c.kind, feature, symptom);
+        let witness = |observed: String, expected: &str| {
+            let w = json!({"composition": c.kind, "history": hist.iter().map(|(p, m)| json!([p, m])).collect::<Vec<_>>(), "context_last_rightly_admitted": context.map(|(p, m)| json!([p, m])), "history_readable": readable.clone(), "step": k,
+                           "expected": expected, "observed": observed});
+            move || w
+        };
+        let Some(p) = out.parsed() else { ctx.violation(&class("no-response"), true, witness(out.kind(), "a response")); return };
+        let observed = format!("status {} ran={} www-authenticate={:?}", p.status, ran, p.header("www-authenticate"));
+        match expect {
+            Expect::Run => {
+                if !ran { ctx.violation(&class(&format!("refused-should-accept:{}", p.status)), true, witness(observed, "every gate on the path holds this pair: handler runs")); return }
+                *c.last_legit.borrow_mut() = Some((pi, mi));
+                if last { ctx.pass("composition:ran", true, hist.len() > 1) }
+            }
+            Expect::Refuse => {
+                if ran { ctx.violation(&class("accepted-should-refuse"), true, witness(observed, "a gate on the path does not hold this pair: 401 + challenge, handler does not run")); return }
+                if p.status != 401 || !p.header("www-authenticate").is_some_and(|v| v.to_ascii_lowercase().starts_with("basic")) {
+                    ctx.violation(&class(&format!("refusal-without-challenge:{}", p.status)), true, witness(observed, "401 and WWW-Authenticate: Basic")); return
+                }
+                if last { ctx.pass("composition:401", true, hist.len() > 1) }
+            }
+            Expect::Either => { if last { ctx.ambiguous(&format!("composition:{}", if ran { "ran" } else { "refused" })) } }
+        }
+    }
+    ctx.states += 1;
+    ctx.distinct_key(&(c.kind, hist.to_vec()));
+}
+
+pub fn compositions(ctx: &mut Ctx) {
+    let quick = ctx.quick();
+    let mut n = 0u64;
+    for kind in COMP_KINDS {
+        if !ctx.mine() { continue }
+        let c = match build_comp(kind) {
+            Ok(c) => c,
+            Err(p) => { ctx.violation(&format!("C13/composition:{kind}/build/panic:{}", panic_kind(&p)), true, || json!({"composition": kind, "build_only": true, "observed": p})); continue }
+        };
+        let menu = comp_menu(&c);
+        let reqs: Vec<(usize, usize)> = (0..c.paths.len()).flat_map(|p| (0..menu.len()).map(move |m| (p, m))).collect();
+        for a in &reqs { run_comp_history(ctx, &c, &menu, &[*a]); n += 1 }
+        for a in &reqs { for b in &reqs { if ctx.out_of_time() { return } run_comp_history(ctx, &c, &menu, &[*a, *b]); n += 1 } }
+        if !quick { for a in &reqs { for b in &reqs { for d in &reqs { if ctx.out_of_time() { return } run_comp_history(ctx, &c, &menu, &[*a, *b, *d]); n += 1 } } } }
+    }
+    ctx.extra.insert("sum_composition_histories".into(), json!(n));
+    ctx.extra.insert("compositions".into(), json!({"kinds": COMP_KINDS, "menu": "absent, the exact credential of every configured pair of every instance, every mixed pair across instances, a wrong password, an unpadded spelling, garbage",
+        "histories": if quick { "all single requests and all ordered pairs over (path, credential)" } else { "all histories of length <= 3 over (path, credential)" }}));
+}
+
+pub fn replay_composition(ctx: &mut Ctx, case: &Value) {
+    let kind = COMP_KINDS.iter().copied().find(|k| Some(*k) == case["composition"].as_str()).expect("known composition");
+    let c = match build_comp(kind) {
+        Ok(c) => c,
+        Err(p) => { ctx.violation(&format!("C13/composition:{kind}/build/panic:{}", panic_kind(&p)), true, || json!({"composition": kind, "build_only": true, "observed": p})); return }
+    };
+    if case["build_only"] == true { ctx.pass("build-ok", true, true); return }
+    let menu = comp_menu(&c);
+    let hist: Vec<(usize, usize)> = case["history"].as_array().expect("history").iter().map(|h| (h[0].as_u64().unwrap() as usize, h[1].as_u64().unwrap() as usize)).collect();
+    if let Some(h) = case["context_last_rightly_admitted"].as_array() {
+        let before = ctx.violations.len();
+        run_comp_history(ctx, &c, &menu, &[(h[0].as_u64().unwrap() as usize, h[1].as_u64().unwrap() as usize)]);
+        if ctx.violations.len() != before { return }
+    }
+    run_comp_history(ctx, &c, &menu, &hist);
 }
